@@ -20,6 +20,7 @@ static GLOBAL: alloc_track::Tracking = alloc_track::Tracking;
 
 pub struct Ctx {
     pub arena: util::Arena,
+    pub arena2: util::Arena,
     pub low: *mut u8,
 }
 
@@ -57,13 +58,30 @@ fn handle(ctx: &Ctx, line: &str) -> String {
     }
 }
 
+struct FormattingLogger;
+impl log::Log for FormattingLogger {
+    fn enabled(&self, _: &log::Metadata) -> bool {
+        true
+    }
+    fn log(&self, record: &log::Record) {
+        // format into a sink: evaluating the arguments is the point
+        use std::fmt::Write as _;
+        let mut sink = util::Sink(0);
+        let _ = write!(sink, "{}", record.args());
+    }
+    fn flush(&self) {}
+}
+static LOGGER: FormattingLogger = FormattingLogger;
+
 fn main() {
     std::panic::set_hook(Box::new(|_| {}));
+    let _ = log::set_logger(&LOGGER);
+    log::set_max_level(log::LevelFilter::Trace);
     let args: Vec<String> = std::env::args().collect();
     let mode = args.get(1).map(|s| s.as_str()).unwrap_or("run");
     match mode {
         "run" => {
-            let ctx = Ctx { arena: util::Arena::new(260), low: util::low_buffer() };
+            let ctx = Ctx { arena: util::Arena::new(260), arena2: util::Arena::new(260), low: util::low_buffer() };
             let stdin = std::io::stdin();
             let stdout = std::io::stdout();
             let mut out = stdout.lock();
